@@ -22,7 +22,7 @@ def addr(i):
 def plan_policy(log=None, distances=None):
     """load-balancing policy: plan = live hosts in `self.order` (addresses; default sorted by
     address); distance from the `distances` map (address -> "local"|"remote"|"ignored", default
-    local); every notification is appended to `log` as (kind, address)"""
+    local); every notification is appended to `log` as (kind, address, host object)"""
     from cassandra.policies import HostDistance, LoadBalancingPolicy
     DIST = {"local": HostDistance.LOCAL, "remote": HostDistance.REMOTE, "ignored": HostDistance.IGNORED}
 
@@ -48,22 +48,22 @@ def plan_policy(log=None, distances=None):
             return [h for h in hs if self.distances.get(h.endpoint.address, "local") != "ignored"]
 
         def on_up(self, host):
-            self.log.append(("up", host.endpoint.address))
+            self.log.append(("up", host.endpoint.address, host))
             if host not in self.hosts:
                 self.hosts.append(host)
 
         def on_down(self, host):
-            self.log.append(("down", host.endpoint.address))
+            self.log.append(("down", host.endpoint.address, host))
             if host in self.hosts:
                 self.hosts.remove(host)
 
         def on_add(self, host):
-            self.log.append(("add", host.endpoint.address))
+            self.log.append(("add", host.endpoint.address, host))
             if host not in self.hosts:
                 self.hosts.append(host)
 
         def on_remove(self, host):
-            self.log.append(("remove", host.endpoint.address))
+            self.log.append(("remove", host.endpoint.address, host))
             if host in self.hosts:
                 self.hosts.remove(host)
     return PlanPolicy()
@@ -74,7 +74,7 @@ def recording_listener(log, clock=None):
 
     class Rec(HostStateListener):
         def _put(self, kind, host):
-            log.append((kind, host.endpoint.address) if clock is None else (kind, host.endpoint.address, clock()))
+            log.append((kind, host.endpoint.address, host, clock() if clock is not None else None))
 
         def on_up(self, host):
             self._put("up", host)
@@ -202,3 +202,15 @@ def legacy_system_tables(node, conn, req):
         cols = [c for c in cols if c[0] in want]
     data = [[r.get(c[0]) for c in cols] for r in rows]
     return ("reply", "RESULT", wire.result_rows(cols, data, ks="system", table=table, version=req["version"]))
+
+
+def separate_profiles(default_profile, make_policy):
+    """execution_profiles dict in which the three graph default profiles get load-balancing policy
+    instances of their own.  (Left alone, Cluster wraps the default profile's policy into the three
+    graph profiles, so that one policy object is notified 4 times per host transition.)"""
+    from cassandra.cluster import (EXEC_PROFILE_DEFAULT, EXEC_PROFILE_GRAPH_ANALYTICS_DEFAULT, EXEC_PROFILE_GRAPH_DEFAULT,
+                                   EXEC_PROFILE_GRAPH_SYSTEM_DEFAULT, GraphAnalyticsExecutionProfile, GraphExecutionProfile)
+    return {EXEC_PROFILE_DEFAULT: default_profile,
+            EXEC_PROFILE_GRAPH_DEFAULT: GraphExecutionProfile(load_balancing_policy=make_policy()),
+            EXEC_PROFILE_GRAPH_SYSTEM_DEFAULT: GraphExecutionProfile(load_balancing_policy=make_policy(), request_timeout=180.),
+            EXEC_PROFILE_GRAPH_ANALYTICS_DEFAULT: GraphAnalyticsExecutionProfile(load_balancing_policy=make_policy())}
